@@ -256,6 +256,9 @@ fn gen_oracle(ctx: &mut Ctx, r: &str) -> Vec<u8> {
 }
 
 fn gen_op(ctx: &mut Ctx, kind: Kind, r: &str, last: bool) -> Op {
+    if last && matches!(kind, Kind::Bump | Kind::Mut) && ctx.rng.chance(1, 2) {
+        return Op::IntoCstr;
+    }
     loop {
         let k = ctx.rng.below(100);
         let op = match k {
@@ -681,7 +684,7 @@ fn sweep(ctx: &mut Ctx, n: u64) {
         ops.push(Op::InsertStr(i, repl.clone()));
         ops.push(Op::Remove(i));
         ops.push(Op::Truncate(i));
-        for j in 0..=len + 1 {
+        for j in i.saturating_sub(1)..=len + 1 {
             let rg = (Bound::Included(i), Bound::Excluded(j));
             ops.push(Op::SplitOff(rg));
             ops.push(Op::Drain(rg, usize::MAX));
